@@ -13,7 +13,12 @@ Trace == ndJsonDeserialize("trace.ndjson")
 ReadBad(r) ==
     LET cls == Class(r.ty, r.t) IN
     CASE cls = "reject" -> IF r.ok THEN {"acceptedOutsideGrammar"} ELSE {}
-      [] cls = "unspec" -> {}
+      [] cls = "unspec" ->
+           \* an integer text too long for the model's arithmetic is judged as a text: if the implementation
+           \* accepts it, the value it holds must print as the very same digits (no silent wrap-around);
+           \* refusing it (out of range) is fine
+           IF r.ty = "int" /\ AllDigits(IntBody(r.t)) /\ IntBody(r.t) # <<>> /\ IntBody(r.t)[1] # 48 /\ r.ok /\ r.wb # r.t
+           THEN {"wrongValue"} ELSE {}
       [] cls = "accept" ->
            IF ~r.ok THEN {"rejectedGrammarText"}
            ELSE \* the exact value, and a canonical text written back unchanged (the receiver was not fresh)
